@@ -50,6 +50,17 @@ def make_source(fname, fid, params, lead, next_name):
     return sig, body
 
 
+class _OneShot(object):
+    """An iterable that can be iterated exactly once (like a generator), usable wherever the harness passes
+    middlewares=."""
+
+    def __init__(self, items):
+        self._it = iter(list(items))
+
+    def __iter__(self):
+        return self._it
+
+
 class Harness(object):
     def __init__(self):
         common.setup_repo()
@@ -122,7 +133,7 @@ class Harness(object):
             e = Boom(fid)
             tr.append(('leave', fid, 'raise', self.tag(e)))
             raise e
-        if fid == 'sib':
+        if fid in ('sib', 'late'):
             kind = 'response'
         elif fid == 'ep':
             kind = script if script != 'pass' else self.ep_result
@@ -334,7 +345,9 @@ class Harness(object):
         app_res = dict((n, self.value(('res', n))) for n in cfg.get('app_res', []))
         outer_res = dict((n, self.value(('res', n))) for n in cfg.get('outer_res', []))
         route_mws = [x for x, m in zip(insts, cfg['mws']) if m['level'] == 'route']
-        route = Route(pattern, ep, rn, methods=['GET'], middlewares=route_mws, resources=route_res)
+        one_shot = bool(cfg.get('mws_one_shot'))
+        route = Route(pattern, ep, rn, methods=['GET'], middlewares=iter(route_mws) if one_shot else route_mws,
+                      resources=route_res)
         # the lists and dicts handed over stay the caller's: what the caller does to them afterwards is not the route's
         route_mws.append(self.ghost())
         route_res['ghost_resource'] = 1
@@ -345,7 +358,9 @@ class Harness(object):
             sib = self.make_callable('sib', {'params': []}, 'func')
             self.scripts['sib'] = 'response'
             sibling = [Route('/sib', sib)]
-        app_mws = [x for x, m in zip(insts, cfg['mws']) if m['level'] == 'app']
+        app_mws_list = [x for x, m in zip(insts, cfg['mws']) if m['level'] == 'app']
+        # middlewares= given as a one-shot iterable (a generator): it is consumed once, completely
+        app_mws = _OneShot(app_mws_list) if one_shot else app_mws_list
         has_outer = any(m['level'] == 'outer' for m in cfg['mws']) or cfg.get('embedded')
         kw = {}
         if error_handler is not None and not has_outer:
@@ -366,7 +381,7 @@ class Harness(object):
         else:
             kw.update(slash_kw)
             app = Application(self.decoy_entries(cfg, decoys) + [route] + sibling, resources=app_res, middlewares=app_mws, **kw)
-        app_mws.append(self.ghost())
+        app_mws_list.append(self.ghost())
         app_res['ghost_resource'] = 1
         self.inner_app = app
         self.prefix = prefix
@@ -376,6 +391,8 @@ class Harness(object):
             if error_handler is not None:
                 kw['error_handler'] = error_handler
             outer_mws = [x for x, m in zip(insts, cfg['mws']) if m['level'] == 'outer']
+            if one_shot:
+                outer_mws = _OneShot(outer_mws)
             if construct == 'add':
                 outer = Application([], resources=outer_res, middlewares=outer_mws, **kw)
                 outer.add(SubApplication(prefix, app))
